@@ -66,6 +66,9 @@ Invalid(case) ==
   LET E == ExpE(case) IN
   {P \in E : SchemaOf(case, P) # <<>> /\ ~SchemaValid(SchemaOf(case, P), FinalOf(case, E, P))}
 
+\* ... on a route of the history dimension (the values in force are the carried-over / reset ones)
+InvalidOn(case, route) == Invalid(CaseFor(case, route))
+
 \* the same judged on final values OBSERVED from the real code (finals: instance path -> tree)
 InvalidObserved(case, E, FinalAt(_)) ==
   {P \in E : SchemaOf(case, P) # <<>> /\ ~SchemaValid(SchemaOf(case, P), FinalAt(P))}
@@ -81,10 +84,18 @@ Modes == {"install", "dryrun", "template", "upgrade", "upgradedry", "lint"}
 \* exist (empty history, or last revision uninstalled with --keep-history) all run the install action
 CliModes == {"cli-install", "cli-dryrun", "cli-template", "cli-upgrade", "cli-upinstall-empty",
              "cli-upinstall-uninstalled", "cli-lint"}
-AllModes == Modes \cup CliModes
+\* the history route: the release was first made with values the case's schemas never judged - an install with
+\* skip-schema-validation ("skipinstall") or an install of the same chart version without its schema files
+\* ("laxinstall") - and is then upgraded with NO new values in each value-carrying mode.  The values in force for
+\* the new revision are those of Deps!CaseFor(case, route); the gate must judge THEM, whatever their origin.
+HistFirst  == {"skipinstall", "laxinstall"}
+HistRoutes == {"upgrade", "upgrade-reuse", "upgrade-reset-then-reuse", "upgrade-reset"}
+HistModes  == {"hist-" \o f \o "-" \o r : f \in HistFirst, r \in HistRoutes}
+AllModes == Modes \cup CliModes \cup HistModes
 Dispatch(m) == CASE m = "cli-install" -> "install" [] m = "cli-dryrun" -> "dryrun" [] m = "cli-template" -> "template"
                  [] m = "cli-upgrade" -> "upgrade" [] m = "cli-upinstall-empty" -> "install"
-                 [] m = "cli-upinstall-uninstalled" -> "install" [] m = "cli-lint" -> "lint" [] OTHER -> m
+                 [] m = "cli-upinstall-uninstalled" -> "install" [] m = "cli-lint" -> "lint"
+                 [] m \in HistModes -> "upgrade" [] OTHER -> m
 
 St(l, w) == [l |-> l, w |-> w]
 HasCrds(case) == \E P \in ExpE(case) : case.charts[ChartAt(case, P)].crds
@@ -128,7 +139,8 @@ SchemaExport ==
   THEN LET c == Case  E == ExpE(c)  I == Invalid(c) IN
        JsonSerialize("gen/" \o CaseId \o ".json",
          [id |-> CaseId, shape |-> Shape.name, case |-> CaseJ(c),
-          exp |-> [enabled |-> SeqOf(E), invalid |-> SeqOf(I), crds |-> HasCrds(c),
+          exp |-> [enabled |-> SeqOf(E), invalid |-> SeqOf(I), invalidReset |-> SeqOf(InvalidOn(c, "upgrade-reset")),
+                   crds |-> HasCrds(c),
                    finals |-> SeqOf({[P |-> P, leaves |-> SeqOf(FinalOf(c, E, P))] : P \in E})]])
   ELSE TRUE
 =============================================================================
